@@ -47,6 +47,7 @@ def make_config(rng, profile, tier):
     cfg['threads'] = rng.choice([1, 2, 3])
     cfg['save_iter'] = rng.random() < 0.5
     cfg['dup_objects'] = rng.random() < 0.4
+    cfg['linutil'] = rng.random() < 0.3
     return cfg
 
 
@@ -434,6 +435,31 @@ class Session:
                         if any((x_ != y_) and not (x_ != x_ and y_ != y_) for x_, y_ in zip(a_, b_)):
                             ctx.fail('I03.results', f'second-order statistics for {sub}: row {lab} differs from the full table')
                     ctx.probe('second-order statistics requested for a subset of the names')
+            # results of several estimations compiled into one table: each cell is the estimate of THAT parameter in THAT model
+            import biogeme.results as _res
+            kept_ = getattr(self, 'kept_for_table', [])
+            kept_.append((r0, r1))
+            self.kept_for_table = kept_[-3:]
+            if len(self.kept_for_table) >= 2:
+                for ui_, rev_ in ((0, False), (1, False), (0, True), (1, True)):
+                    # (in both orders: a later model may bring parameters that an earlier one does not have)
+                    items_ = list(enumerate(self.kept_for_table))
+                    if rev_:
+                        items_ = items_[::-1]
+                    rs_ = {f'model_{j_}': pair_[ui_] for j_, pair_ in items_}
+                    tab_, _ = _res.compile_estimation_results(rs_, statistics=(), include_robust_ttest=False, formatted=False)
+                    for mname_, r_ in rs_.items():
+                        for b_ in r_.data.betas:
+                            cell_ = tab_.loc[b_.name, mname_] if b_.name in tab_.index else None
+                            if cell_ is None or cell_ == '' or float(cell_) != float(b_.value):
+                                ctx.fail('I03.results', f'table of several estimations: row {b_.name}, column {mname_} holds '
+                                                        f'{cell_!r}, the estimate of {b_.name} in that model is {float(b_.value)!r}')
+                        for row_ in tab_.index:
+                            if row_ not in [b_.name for b_ in r_.data.betas] and tab_.loc[row_, mname_] != '':
+                                ctx.fail('I03.results', f'table of several estimations: row {row_} has a value in column {mname_}, '
+                                                        f'a model without that parameter')
+                if len({tuple(sorted(b_.name for b_ in p_[0].data.betas)) for p_ in self.kept_for_table}) >= 2:
+                    ctx.probe('table of estimations with different sets of parameters')
             p0 = r0.get_estimated_parameters(only_robust=False)
             p1 = r1.get_estimated_parameters(only_robust=False)
             if self.cfg.get('save_iter'):
